@@ -37,6 +37,11 @@ CHECKS["C07"] = ("exploration",
   "Enumerates all strings up to length 5 (6 in thorough) over ~10 symbols for each of the ten categories with a grammar, shaped boundary strings, and a (type x range x nullable x enumeration x value) grid; generated search for the insert/update gate including arities 0..33 and duplicate keys. Oracle: reference predicates written from the rustdoc of Category and the property text.",
   "Trusted: the reference grammars in model.rs. Declared don't-care set: leading '+' in integer text, non-ASCII cased letters in Upper/LowerCase, multi-byte characters in the 8.3 part of Cabinet.",
   "DESIGN.md section 4, C07 and Appendix B")
+CHECKS["C01"] = ("exploration",
+  "model-driven (late-bound) operation sequences generated by proptest with reopen points in all three close modes + sweep driver (reopen after every position x every mode) + directed needle cases; round-trip oracle: API snapshot before close == snapshot after Package::open(saved bytes)",
+  "Generated search over histories x values x close points: 24,000 sequences + 600 sweeps (x up to 27 variants) + 41 directed cases (each of 26 code pages with strings from its repertoire, package types, long-string boundary lengths, integer boundaries) in the quick tier; 300,000 / 8,000 in thorough. Crash-after-flush is the FlushAndCopy close mode (bytes copied from the live medium when flush returns).",
+  "Trusted: the harness observer (public API only) and the shared-buffer medium. Torn writes in the middle of a flush are outside the statement.",
+  "DESIGN.md section 4, C01")
 NOT_YET = {}
 
 def main():
